@@ -107,9 +107,10 @@ class WriteHook:
         elif self.calls == 1:
             self.fault.save_point('close')     # something, not everything
         self.calls += 1
-        n = self.real.write(data)
-        self.real.flush()
-        return n
+        # no flush here: what reaches the disk before close() is whatever the
+        # implementation's own buffering lets through (a process that dies
+        # loses its unflushed buffers, exactly as the kill points assume)
+        return self.real.write(data)
 
     def flush(self):
         self.real.flush()
@@ -179,7 +180,7 @@ def install(fault):
         if 'w' in mode:
             fault.nsaves += 1
             fault.save_point('open')
-            raw = real_open(file, 'wb', buffering=0)
+            raw = real_open(file, 'wb')
             hook = WriteHook(raw, fault, is_final(file))
             gz = _Gz(filename=os.path.basename(str(file)), mode='wb',
                      fileobj=hook)
